@@ -52,7 +52,7 @@ func routeFieldsIn(v ssa.Value, depth int, out map[string]bool) {
 
 func runC05(c *Ctx) {
 	// ---- R1 key provenance
-	c.rule("C05-R1", "TNT-style key provenance: every map in cmd/glyph that stores the result of Compiler.CompileRoute(r), and every lookup that feeds registerCompiledRoute, uses a key whose derivation reads both r.Method and r.Path (two routes that share a path but differ in method never share bytecode)")
+	c.rule("C05-R1", "TNT-style key provenance: every map in cmd/glyph that stores the result of Compiler.CompileRoute(r), and every lookup that feeds registerCompiledRoute, uses a key whose derivation reads both r.Method and r.Path (two routes that share a path but differ in method never share bytecode); a store into such a map lies behind the not-present edge of a lookup of the same key (of two declarations with one method and path the earlier keeps its code, as in the router)")
 	n := 0
 	for _, fn := range c.srcFuncs(glyphCmd) {
 		eachInstr(fn, func(_ *ssa.BasicBlock, _ int, ins ssa.Instruction) {
@@ -97,6 +97,30 @@ func runC05(c *Ctx) {
 			fields := map[string]bool{}
 			routeFieldsIn(key, 0, fields)
 			c.ob("C05-R1", fnKey(fn)+"#compiled-bytecode-"+what+"-key-"+itoa(n), ins.Pos(), fields["Method"] && fields["Path"], "compiled bytecode is keyed without the route's method (or path): in compiled mode GET /x and POST /x run the same, last-compiled body")
+			// two declarations of one method and path share the key: the router dispatches to the earlier one, so the
+			// table must keep the earlier one's code - the store lies behind the not-present edge of a lookup of that key
+			if mu, ok := ins.(*ssa.MapUpdate); ok {
+				var oks []ssa.Value
+				eachInstr(fn, func(_ *ssa.BasicBlock, _ int, x ssa.Instruction) {
+					if lk, ok := x.(*ssa.Lookup); ok && lk.CommaOk && (lk.X == mu.Map || sameVal(lk.X, mu.Map)) {
+						f2 := map[string]bool{}
+						routeFieldsIn(lk.Index, 0, f2)
+						if f2["Method"] && f2["Path"] {
+							oks = append(oks, extractOf(lk, 1)...)
+						}
+					}
+				})
+				q := &pathQuery{fn: fn, target: func(x ssa.Instruction) bool { return x == ins }, cutEdge: func(b *ssa.BasicBlock, si int) bool {
+					for _, o := range oks {
+						if known, val := boolOnEdge(b, si, o); known && !val {
+							return true
+						}
+					}
+					return false
+				}}
+				hit, _ := q.fromEntry()
+				c.ob("C05-R1", fnKey(fn)+"#earlier-declaration-keeps-its-bytecode-"+itoa(n), ins.Pos(), hit == nil && len(oks) > 0, "the bytecode table is overwritten when the same method and path are declared again: both registrations then run the later body, while the router (and the interpreter) give the route to the earlier declaration - whose auth, rate limit and input type guard a body they were not written for")
+			}
 		})
 	}
 	if n == 0 {
@@ -562,6 +586,92 @@ func runC05(c *Ctx) {
 			p = hit.Pos()
 		}
 		c.ob("C05-R5", fnKey(xr)+"#no-query-split-of-a-separate-path", p, len(sepLoads) > 0 && hit == nil, "ExecuteRoute looks for '?' in the request path although the caller passed the query string separately (QuerySeparate): a literal '?' in a decoded path segment is taken for the start of the query", c.blockPath(path)...)
+	}
+
+	// ---- R9 path parameters are what the route declared under their names
+	c.rule("C05-R9", "ORD: in both engines no binding under a constant name (the built-in request variables query, input, headers, auth) and no binding of a declared query parameter is made after the last binding of the path parameters (the loop over the router's / the pattern's parameter map): a parameter such as /search/:query keeps the request segment, whatever else is called `query`")
+	{
+		check := func(fn *ssa.Function, callees []string, isParamMap func(v ssa.Value) bool, engine string) {
+			// the path-parameter bindings: calls whose name argument is a key of the parameter map
+			var pathBinds, others []ssa.Instruction
+			eachInstr(fn, func(_ *ssa.BasicBlock, _ int, ins ssa.Instruction) {
+				call, ok := ins.(*ssa.Call)
+				if !ok {
+					return
+				}
+				isBind := false
+				for _, cn := range callees {
+					if callName(call) == cn {
+						isBind = true
+					}
+				}
+				if !isBind {
+					return
+				}
+				name := call.Call.Args[1]
+				fromParams := derivesFrom(name, func(v ssa.Value) bool {
+					if rg, ok := v.(*ssa.Range); ok {
+						return isParamMap(rg.X)
+					}
+					return false
+				})
+				if fromParams {
+					pathBinds = append(pathBinds, ins)
+				} else if s, ok := constString(name); !ok || !strings.HasPrefix(s, "__") {
+					others = append(others, ins)
+				}
+			})
+			if len(pathBinds) == 0 {
+				c.ob("C05-R9", fnKey(fn)+"#binds-path-parameters", fn.Pos(), false, "the "+engine+" binds no path parameters from the router's parameter map")
+				return
+			}
+			// some path binding from which no other binding is reachable (the last one)
+			okLast := false
+			for _, pb := range pathBinds {
+				after := false
+				for _, o := range others {
+					q := &pathQuery{fn: fn, target: func(x ssa.Instruction) bool { return x == o }}
+					if h, _ := q.after(pb); h != nil {
+						after = true
+					}
+				}
+				if !after {
+					okLast = true
+				}
+			}
+			c.ob("C05-R9", fnKey(fn)+"#path-parameters-bound-last", pathBinds[0].Pos(), okLast, "after every binding of the path parameters the "+engine+" still binds other names into the same scope (query, input, headers, auth, declared query parameters): for @ GET /search/:query the body reads the query object instead of the segment")
+		}
+		if cr := c.fn(glyphCmd, "createCompiledRouteHandler"); cr != nil {
+			for _, cl := range innerClosures(cr) {
+				has := false
+				eachCall(cl, func(call ssa.CallInstruction) {
+					if callName(call) == vmPath+".VM.SetLocal" {
+						has = true
+					}
+				})
+				if has {
+					check(cl, []string{vmPath + ".VM.SetLocal"}, func(v ssa.Value) bool { return loadedFromField(v, "Context", "PathParams") }, "compiled handler")
+				}
+			}
+		}
+		if xr := c.fn(interpPkg, "Interpreter.ExecuteRoute"); xr != nil {
+			isParams := func(v ssa.Value) bool {
+				// the map returned by the parameter binder
+				return derivesFrom(v, func(x ssa.Value) bool {
+					cl, ok := x.(*ssa.Call)
+					if !ok {
+						return false
+					}
+					sf := staticFn(cl)
+					if sf == nil || sf.Pkg != xr.Pkg || sf.Signature.Results().Len() == 0 {
+						return false
+					}
+					mt, ok := sf.Signature.Results().At(0).Type().Underlying().(*types.Map)
+					return ok && mt.Elem().String() == "string" && mt.Key().String() == "string"
+				})
+			}
+			check(xr, []string{interpPath + ".Environment.DefineWithSource", interpPath + ".Environment.Define"}, isParams, "interpreter")
+		}
 	}
 
 	// ---- R8 the request names no variable
